@@ -151,6 +151,11 @@ fn check(c: &Case, obs: &mut Obs) -> Result<(), Fail> {
         hex::encode(&got), exp_hex
     );
     pv_ensure!(a.typeid() == c.ty, format!("typeid:type{t}"), "typeid() = {} expected {}", a.typeid(), c.ty);
+    // what the header type says about the parts (CIP-19 table), read back through the accessors
+    let script_by_type = matches!(c.ty, 1 | 2 | 3 | 5 | 7 | 15);
+    pv_ensure!(a.has_script() == script_by_type, format!("has_script-accessor:type{t}"), "has_script() = {} for address type {}", a.has_script(), c.ty);
+    pv_ensure!(a.is_enterprise() == matches!(c.ty, 6 | 7), format!("is_enterprise-accessor:type{t}"), "is_enterprise() = {} for address type {}", a.is_enterprise(), c.ty);
+    pv_ensure!(a.network().map(|n| n.is_mainnet()) == Some(c.net == 1), format!("is_mainnet-accessor:type{t}"), "network().is_mainnet() = {:?} for network id {}", a.network().map(|n| n.is_mainnet()), c.net);
     pv_ensure!(
         a.network().map(|n| n.value()) == Some(c.net),
         format!("network-accessor:type{t}"),
